@@ -858,9 +858,18 @@ def kill_items(tier, only=None):
         idx += 1
 
 
+# C11 at the Ninja front end: the families in which a statement reports discovered dependencies (histories only; the
+# failure items and the other families stay with C18)
+C11_FAMILIES = ("depfile", "gendep", "oodep", "latedecl", "genheader", "depmulti")
+
+
 def run(args, res):
     only = args.extra["families"].split(",") if args.extra.get("families") else None     # development aid
-    items = kill_items(args.tier, only) if args.prop == "C04" else work_items(args.tier, only, args.extra.get("phase"))
+    phase = args.extra.get("phase")
+    if args.prop == "C11":
+        only = [f for f in C11_FAMILIES if only is None or f in only]
+        phase = "h"
+    items = kill_items(args.tier, only) if args.prop == "C04" else work_items(args.tier, only, phase)
     for idx, kind, it in items:
         if (idx + args.seed) % args.nshards != args.shard:
             continue
@@ -936,6 +945,8 @@ def replay(args, res):
                 raise HarnessError("unknown replay spec " + spec)
     finally:
         if only:
+            if only.startswith("C11."):
+                only = "C18." + only[4:]
             res.violations = [v for v in res.violations if v["class"] == only]
 
 
@@ -944,7 +955,7 @@ def main():
     res = Result()
     res.assumptions = list(ASSUMPTIONS)
     try:
-        if args.prop not in ("C18", "C04"):
+        if args.prop not in ("C18", "C04", "C11"):
             raise HarnessError("worldx3 decides C18 (and the Ninja part of C04), not %r" % args.prop)
         global PROP
         PROP = args.prop
@@ -976,6 +987,15 @@ def main():
         wx.cleanup()
         return 3
     wx.cleanup()
+    if args.prop == "C11":
+        # the same oracles, reported under the property this part serves
+        for v in res.violations:
+            if v["class"].startswith("C18."):
+                v["class"] = "C11." + v["class"][4:]
+                v["replay"]["spec"] = v["replay"]["spec"].replace(" #C18.", " #C11.")
+        res.per_class = {("C11." + k[4:] if k.startswith("C18.") else k): n for k, n in res.per_class.items()}
+        if "violations_by_class" in res.counters:
+            res.counters["violations_by_class"] = dict(res.per_class)
     res.write(args.out)
     if args.replay:
         print("replay: %d violation(s)" % len(res.violations))
